@@ -8,7 +8,7 @@ import (
 	"verifharness/internal/pbt"
 )
 
-// C11.par: Bimaps of 2^13 .. 2^16 (thorough: .. 2^18) pairs, one below / at / one above every power of two,
+// C11.par: Bimaps of 2^13 .. 2^16 (thorough: .. 2^18, and 2^20) pairs, one below / at / one above every power of two,
 // each under GOMAXPROCS = 1, 2, 3, 5, 6, 7 and the machine's default. Bulk paths that only start at large sizes
 // are typically chunked or parallel, and their behaviour then depends on the number of Ps (chunk remainders,
 // helper goroutines that have not started yet on a single P, ...). Same machine and oracle as C11.big (RunBig);
@@ -50,7 +50,7 @@ var specPar = pbt.Register(&pbt.Spec[BigCase]{
 	Rule: "the C11.big machine (bulk steps, model, full-universe verification of every box after every step and of every clone immediately after Clone returned) on Bimaps of " +
 		"2^p-1, 2^p, 2^p+1 pairs for p = 13..16 (thorough ..18), each size under runtime.GOMAXPROCS 1, 2, 3, 5, 6, 7 and the default (16 here), set for the duration of the case; " +
 		"3 scripts: Clone of the big map, clone and original mutated, second Clone, Range, Clear | the size approached from below and crossed upwards by Adds and downwards by 3-pair evictions with Clones on either side, Clone inside a Range callback, Clear while a clone is alive | " +
-		"two independent big Bimaps holding the same keys and values in different pairings, Clone of each, runtime.GC(); quick runs script (size index + procs index) mod 3 for every (size, procs) plus script 0 for every size under GOMAXPROCS 1, thorough all three; " +
+		"two independent big Bimaps holding the same keys and values in different pairings, Clone of each, runtime.GC(); quick runs script (size index + procs index) mod 3 for every (size, procs) plus script 0 for every size under GOMAXPROCS 1, thorough all three and the first script on 2^20-1, 2^20, 2^20+1 pairs under GOMAXPROCS 1, 3 and the default; " +
 		"lean checking: every 8th single call, and every one while Len is within 4 of a power of two, is checked after the call (touched keys/values + Len); at the end of a step the box the step worked on is verified over the whole universe, the other boxes by Len + every key/value the step touched + 512 evenly spread keys and values; the process writes the current case to disk first, so that a runtime abort (\"concurrent map writes\") is attributed to it; non-trivial = some box reached >= 65 pairs",
 	Enum: func(shard, shards int, tier string, yield func(BigCase) bool) {
 		idx := 0
@@ -65,6 +65,19 @@ var specPar = pbt.Register(&pbt.Spec[BigCase]{
 						continue
 					}
 					if !yield(BigCase{Seed: n*131 + pi*7 + si, Steps: steps, Procs: procs, Lean: true}) {
+						return
+					}
+				}
+			}
+		}
+		if tier == "thorough" { // one more magnitude: around 2^20 pairs, first script only (a few seconds and ~0.7 GB per case)
+			for _, n := range []int{1<<20 - 1, 1 << 20, 1<<20 + 1} {
+				for _, procs := range []int{1, 3, 0} {
+					idx++
+					if shards > 1 && idx%shards != shard {
+						continue
+					}
+					if !yield(BigCase{Seed: n*131 + procs, Steps: parScripts(n)[0], Procs: procs, Lean: true}) {
 						return
 					}
 				}
